@@ -51,7 +51,17 @@ fn catalog(g: usize) -> Arc<Cat> {
     z.add("sub.gen.test.", wire::T_NS, 60, &wire::name_wire(&format!("ns{g}.sub.gen.test.")));
     z.add(&format!("ns{g}.sub.gen.test."), wire::T_A, 60, &[10, 2, gb, 1]);
     z.add("*.w.gen.test.", wire::T_TXT, 60, &wire::txt_rdata(format!("g={g}").as_bytes()));
-    qz::catalog_of(vec![z.finish()])
+    // a CNAME into a *sibling zone* of the same catalog; its target label carries g, and the
+    // sibling zone of every generation holds all five targets, each marked with that zone's own g
+    z.add("cross.gen.test.", wire::T_CNAME, 60, &wire::name_wire(&format!("t{g}.other.test.")));
+    let mut o = qz::ZoneBuilder::new("other.test.", wire::C_IN);
+    o.add("other.test.", wire::T_SOA, 60, &wire::soa_rdata(&format!("ns{g}.other.test."), "h.other.test.", 100 + g as u32));
+    o.add("other.test.", wire::T_NS, 60, &wire::name_wire(&format!("ns{g}.other.test.")));
+    o.add(&format!("ns{g}.other.test."), wire::T_A, 60, &[10, 3, gb, 1]);
+    for h in 0..5 {
+        o.add(&format!("t{h}.other.test."), wire::T_TXT, 60, &wire::txt_rdata(format!("g={g}").as_bytes()));
+    }
+    qz::catalog_of(vec![z.finish(), o.finish()])
 }
 /// Key generation g: the key `k.` is absent in generation 3, uses HMAC-SHA1 in odd and
 /// HMAC-SHA256 in even generations, and always has its own secret; an unrelated key is
@@ -92,6 +102,11 @@ fn marker(msg: &[u8], rr: &wire::Rr) -> Result<Option<usize>, String> {
             let names = wire::rdata_names(msg, rr).map_err(|e| format!("{e:?}"))?;
             Some(from_ns_name(&names[0]).ok_or("bad NS target")?)
         }
+        wire::T_CNAME => {
+            let names = wire::rdata_names(msg, rr).map_err(|e| format!("{e:?}"))?;
+            let l = names[0].first().and_then(|l| std::str::from_utf8(l).ok()).ok_or("bad CNAME target")?;
+            Some(l.strip_prefix('t').and_then(|x| x.parse().ok()).ok_or("bad CNAME target label")?)
+        }
         _ => None,
     })
 }
@@ -127,7 +142,7 @@ impl Prop for C32 {
                         // a quarter of the signed requests carry a stale time: the BADTIME response must be
                         // signed with the key that authenticated the request
                         let stale = if signed >= 0 && r.below(4) == 0 { 8 } else { 0 };
-                        (r.below(6) as u8 + stale, r.below(4) == 0, signed)
+                        (r.below(7) as u8 + stale, r.below(4) == 0, signed)
                     })
                     .collect()
             })
@@ -190,7 +205,7 @@ impl Prop for C32 {
         out
     }
     fn rule() -> String {
-        "one execution = a swapper thread installing catalog and key-set generations 1..G (G<=4) while 2-4 query threads issue 1-5 requests each (MX/NS-referral/NXDOMAIN/SOA/TXT/wildcard, UDP or TCP, unsigned or TSIG-signed with a chosen key generation) under one seeded schedule (random / PCT 2-6). Every record of generation g carries g (SOA serial, MX preference, A/AAAA octet, NS target label, TXT). Non-trivial = at least one preemption; distinct = distinct (scenario, schedule) hash".into()
+        "one execution = a swapper thread installing catalog and key-set generations 1..G (G<=4) while 2-4 query threads issue 1-5 requests each (MX/NS-referral/NXDOMAIN/SOA/TXT/wildcard/CNAME into a sibling zone of the same catalog, UDP or TCP, unsigned or TSIG-signed with a chosen key generation) under one seeded schedule (random / PCT 2-6). Every record of generation g carries g (SOA serial, MX preference, A/AAAA octet, NS and CNAME target label, TXT). Non-trivial = at least one preemption; distinct = distinct (scenario, schedule) hash".into()
     }
     fn assumptions() -> Vec<String> {
         vec!["catalog and key generations need not match each other (the statement promises one snapshot *of each*)".into(), "freshness is judged by global event sequence numbers taken immediately before/after each call".into()]
@@ -257,7 +272,8 @@ fn run(scn: &Scn) {
                     2 => ("nosuch.gen.test.", wire::T_TXT),
                     3 => ("gen.test.", wire::T_SOA),
                     4 => ("txt.gen.test.", wire::T_TXT),
-                    _ => ("x.w.gen.test.", wire::T_TXT),
+                    5 => ("x.w.gen.test.", wire::T_TXT),
+                    _ => ("cross.gen.test.", wire::T_TXT),
                 };
                 let mut msg = wire::query((t * 100 + i) as u16, qn, qt);
                 let mut req_mac = vec![];
